@@ -55,7 +55,10 @@ pub fn verif_calc_num_threads(
 ) -> usize {
     let available_threads = match available.and_then(NonZeroUsize::new) {
         Some(x) => Ok(x),
-        None => Err(std::io::Error::new(std::io::ErrorKind::Other, "verif: unavailable")),
+        None => Err(std::io::Error::new(
+            std::io::ErrorKind::Other,
+            "verif: unavailable",
+        )),
     };
     match num_threads {
         NumThreads::Auto => auto_num_threads(input_len, available_threads),
